@@ -151,6 +151,17 @@ func threadRun(L *LState) {
 			}
 			if parent := L.Parent; parent != nil {
 				if L.wrapped {
+					// the error leaves through the wrap function: the coroutine is dead and
+					// its resumer is the running thread again (luaB_auxwrap also prefixes a
+					// string error with the position of the wrap function's caller)
+					if _, isnum := lv.(LNumber); isnum || lv.Type() == LTString {
+						if dbg, ok := parent.GetStack(1); ok && !dbg.frame.Fn.IsG {
+							lv = LString(parent.where(1, false) + " " + lv.String())
+						}
+					}
+					L.G.CurrentThread = parent
+					L.Parent = nil
+					L.kill()
 					L.Push(lv)
 					parent.Panic(L)
 				} else {
